@@ -253,6 +253,8 @@ var templates = []string{
 	"NF { cmd = \"echo sh-\" NR \"-\" length($0) \"-\" NF; cmd | getline r; close(cmd); print \"got\", r }",
 	"NR <= 3 { system(\"echo sys-\" NR \"-\" length($0)) }",
 	"NR == 1 { print \"piped \" length($0) | \"cat\"; close(\"cat\") }",
+	// conversion formats that depend on the input: concurrent executions use different CONVFMT / OFMT values
+	"NR == 1 { CONVFMT = \"%.\" (1 + length($0) % 5) \"g\"; OFMT = \"%.\" (2 + NF) \"f\" }\n{ cv = (NR + 0.123456789) \"\"; idx[NR / 7] = 1; print cv, 1 / 7, NR / 3 }\nEND { for (k in idx) nk++; print nk + 0, 22 / 7 \"\" }",
 	// range patterns, left open or closed at the end of the input: where the range stands is state of the run
 	"$1 == \"aab\", $1 == \"zzz\" { print \"open-range\", NR, $0 }",
 	"/^a/, /x/ { rng++ } END { print \"range\", rng + 0 }",
